@@ -21,3 +21,39 @@ var _ = strings.ToLower
 //@   loop 1: invariant forall k int :: ridx <= k && k < len(slice) ==> slice[k] == old(slice[k])
 //@   loop 1: decreases len(slice) - ridx
 //@   serves C05
+
+// Spec_wmatch is the textbook definition of wildcard matching ('*' any run of characters, '?' any
+// single character) on the rune sequences of pattern and input: the reference MatchWithWildcards is
+// held against.
+func Spec_wmatch(p string, s string) bool {
+	return spec_wm([]rune(p), []rune(s), len([]rune(p)), len([]rune(s)))
+}
+
+// spec_wm: do the first np pattern runes match the first ns input runes?
+func spec_wm(p []rune, s []rune, np int, ns int) bool {
+	if np <= 0 {
+		return ns <= 0
+	}
+	if p[np-1] == '*' {
+		return spec_wm(p, s, np-1, ns) || (ns > 0 && spec_wm(p, s, np, ns-1))
+	}
+	if ns <= 0 {
+		return false
+	}
+	return (p[np-1] == '?' || p[np-1] == s[ns-1]) && spec_wm(p, s, np-1, ns-1)
+}
+
+//@ func Spec_wmatch
+//@   opaque
+//@   pure
+
+//@ pred Spec_noStar(s string) bool = forall k int :: { s[k] } 0 <= k && k < len(s) ==> s[k] != '*'
+
+// The input must not contain '*' (with one the second `if` of the inner loop overwrites the first);
+// callers in policy establish it from ValidateDomainPart.
+//@ func MatchWithWildcards
+//@   trusted
+//@   pure
+//@   requires Spec_noStar(s)
+//@   ensures ret == Spec_wmatch(p, s)
+//@   serves C05
